@@ -580,6 +580,9 @@ def build(prog, da, sources, memo=None, hooks=None):
         out = da.diag(rec(prog[1]))
     elif t == "view":
         out = rec(prog[1]).view(prog[2], order=prog[3])
+    elif t == "call":
+        from apicalls import CALLS
+        out = CALLS[prog[1]].daf(da, [rec(c) for c in prog[3]], prog[2])
     else:
         raise ValueError(f"unknown op {t}")
     memo[key] = (prog, out)
@@ -608,7 +611,7 @@ def show(prog, depth=0):
 
 KNOWN_TAGS = {"src", "ones", "arange", "const", "elem", "T", "slice", "rechunk", "concat", "stack", "expand", "squeeze",
               "reduce", "cum", "map_blocks", "broadcast_to", "flip", "roll", "take", "swv", "where", "repeat", "diff",
-              "reshape", "astype", "map_overlap", "boolmask", "arangef", "fftfreq", "nparray", "setitem", "where_out", "diag", "view"}
+              "reshape", "astype", "map_overlap", "boolmask", "arangef", "fftfreq", "nparray", "setitem", "where_out", "diag", "view", "call"}
 
 
 def subprograms(prog):
@@ -740,10 +743,102 @@ def eval_np(prog, sources, memo=None):
     elif t == "view":
         x = rec(prog[1])
         out = np.ascontiguousarray(x).view(prog[2]) if prog[3] == "C" else np.ascontiguousarray(x.T).view(prog[2]).T
+    elif t == "call":
+        from apicalls import CALLS
+        with np.errstate(all="ignore"):
+            out = CALLS[prog[1]].npf([np.asarray(rec(c)) for c in prog[3]], prog[2])
     else:
         raise ValueError(t)
     memo[key] = (prog, out)
     return out
+
+
+def api_call_on(g, p, v, names=None):
+    """one API call (harness/apicalls.py) applied on top of program p with NumPy value v; None when no call applies"""
+    from apicalls import CALLS, applicable
+    rng = g.rng
+    v = np.asarray(v)
+    names = [n for n in (names or sorted(CALLS)) if applicable(n, [v])]
+    rng.shuffle(names)
+    for name in names[:6]:
+        c = CALLS[name]
+        kids, vals = [p], [v]
+        try:
+            if c.arity == 2:
+                w = c.second(rng, v)
+                if w is None:
+                    continue
+                w = np.asarray(w)
+                g.sources.append((w, tuple(rand_chunks_for(rng, n) for n in w.shape)))
+                kids.append(("src", len(g.sources) - 1))
+                vals.append(w)
+            params = c.params(rng, vals)
+            if params is None:
+                continue
+            with np.errstate(all="ignore"):
+                out = c.npf(vals, params)
+        except (TypeError, ValueError, IndexError, OverflowError, ZeroDivisionError, np.linalg.LinAlgError):
+            continue
+        return ("call", name, tuple(params), tuple(kids)), np.asarray(out)
+    return None
+
+
+def call_tag(prog, sources):
+    """name of the API call at the root of `prog` (None for other roots); two documented edge regimes get their own tag"""
+    if not (isinstance(prog, tuple) and prog and prog[0] == "call"):
+        return None
+    name, params = prog[1], prog[2]
+    try:
+        shape = np.shape(eval_np(prog[3][0], sources))
+        if name == "pad" and params[1] in ("wrap", "symmetric"):
+            w = max(params[0]) if isinstance(params[0], tuple) else params[0]
+            if any(s < w for s in shape):
+                return "pad-wider-than-axis"
+        if name == "topk" and abs(params[0]) > shape[params[1]]:
+            return "topk-k-beyond-axis"
+    except Exception:  # noqa: BLE001
+        pass
+    return name
+
+
+POST_OPS = ["slice", "slice", "rechunk", "T", "elem1", "scalar", "reduce", "take", "flip"]
+
+
+def gen_api_programs(rng, n, names=None, max_dim=6):
+    """n programs of the form  post*(call(pre))  : a small core program, ONE API call from harness/apicalls.py on top (round-robin
+    over the table so that every entry is reached), then 0-2 core operations above it (they invite pushdowns through the
+    call's expression).  Own family, so that the streams of gen_programs are left as they are."""
+    from apicalls import CALLS
+    order = sorted(names or CALLS)
+    made = tries = 0
+    while made < n and tries < n * 20:
+        tries += 1
+        name = order[made % len(order)]
+        g = Gen(rng, max_dim=max_dim, ops=["elem2", "scalar", "T", "slice", "rechunk", "concat", "expand"], sources=[])
+        p, v = g.program(rng.choice([0, 0, 1, 2]))
+        if np.asarray(v).dtype.kind not in "iu":
+            continue
+        r = api_call_on(g, p, v, [name])
+        if r is None:
+            # the drawn operand does not fit this call: try a source of a rank the call accepts
+            for rank in (1, 2, 3):
+                shape = tuple(rng.choice([2, 3, 4, 5, 6, 7][: max_dim - 1]) for _ in range(rank))
+                if rank == 1:
+                    shape = (rng.choice([5, 7, 8, 9, 12]),)
+                data = (np.arange(int(np.prod(shape)), dtype="int64").reshape(shape) * 7 + rng.randint(0, 5)) % 23 - 5
+                g.sources.append((data, tuple(rand_chunks_for(rng, s) for s in shape)))
+                r = api_call_on(g, ("src", len(g.sources) - 1), data, [name])
+                if r is not None:
+                    break
+        if r is None:
+            continue
+        p, v = r
+        g.ops = POST_OPS
+        for _ in range(rng.choice([0, 0, 1, 1, 2])):
+            if np.asarray(v).dtype.kind in "iub":
+                p, v = g.step(p, np.asarray(v))
+        made += 1
+        yield p, g.sources, np.asarray(v)
 
 
 def gen_programs(rng, n, depth_choices=(1, 2, 3, 4, 5, 6), ops=None, max_dim=8, unique=False):
